@@ -20,7 +20,11 @@ pub fn parse_outcome(src: &str) -> J {
     }));
     match r {
         Err(_) => json!({"k": "panic", "msg": run::last_panic()}),
-        Ok((Ok(ast), Ok(_))) => json!({"k": "ok", "ast": enc::ast(&ast)}),
+        Ok((Ok(ast), Ok(_))) => {
+            let mut ids = vec![];
+            enc::ast_ids(&ast, &mut ids);
+            json!({"k": "ok", "ast": enc::ast(&ast), "ids": ids})
+        }
         Ok((Err(e), Err(_))) => {
             let errs: Vec<J> = e.errors.iter().map(|pe| {
                 let text = format!("{}", pe);
